@@ -93,7 +93,9 @@ def _case(draw):
     solver, system, site = draw(st.sampled_from(SITES))
     nst = 4 if solver == "Newton" else 2 if solver == "Riks" else NSTEPS
     return {"solver": solver, "system": system, "site": site, "step": draw(st.integers(-1 if solver == "Riks" else 0, nst - 1)),
-            "flag": draw(st.booleans())}
+            "flag": draw(st.booleans()),
+            # Jacobian of the nonlinear solves: analytic (default) or numerical (SolverOptions.numerical_jacobian_method)
+            "num_jac": draw(st.sampled_from([False, False, "2-point", "3-point"])) if "newton" in site else False}
 
 
 def strategy(tier):
@@ -200,7 +202,7 @@ def check(spec):
     system = build(skind)
     opts = SolverOptions(newton_atol=1e-10, newton_rtol=1e-10, fixed_point_atol=1e-10, fixed_point_rtol=1e-10,
                          fixed_point_max_iter=40 if "fixed_point" in site else 2000, newton_max_iter=30,
-                         continue_with_unconverged=flag)
+                         continue_with_unconverged=flag, numerical_jacobian_method=spec.get("num_jac", False))
     armed = Armed(step)
     state = {"solver": None, "count": 0}
 
